@@ -1553,6 +1553,8 @@ _C = 'aggregates/classification.py'
 _T = 'aggregates/retrieval.py'
 _MC = 'metrics/classification.py'
 VARIANTS = [
+    OK('mean-of-a-batch-through-a-local', 'aggregates/rolling_stats.py',
+       "        _mean=np.nanmean(batch, axis=0),", "        _mean=np.nanmean(np.asarray(batch), axis=0),", count=2),
     B('categorical-cross-entropy-clips-its-probabilities', 'signals/cross_entropy.py',
       "  return -np.sum(y_true * np.log(y_pred / np.sum(y_pred)))", "  y_prob = np.clip(y_pred / np.sum(y_pred), 1e-7, 1.0)\n  return -np.sum(y_true * np.log(y_prob))", 'R-C07-22'),
     OK('categorical-cross-entropy-through-a-local', 'signals/cross_entropy.py',
